@@ -41,6 +41,13 @@ LEVEL_TEXT = (
     "_adaptive sets or provably keeps both tag fields. Not decided: the "
     "tetrahedral bisection work-list (data-dependent loop), conformity of "
     "concrete results, arbitrary refinement histories.")
+LEVEL_TEXT += (
+    " Added after the seeding phase: (R5) fill values of padded child "
+    "tables are removed by value before an index set becomes a subdomain; "
+    "the ancestor array of the tetrahedral bisection holds input-mesh "
+    "cell numbers only (index-space typing); MeshLine1._adaptive is "
+    "decided by a symbolic run (kept cells, halves, midpoints, child "
+    "table).")
 LEVEL_NOTE = ("Trusted: numpy hstack/vstack/arange/reshape. The reference "
               "facet is the one opposite... precisely: local facet 2 = "
               "vertices (0, 2), read from RefTri.facets.")
